@@ -147,6 +147,8 @@ func digSample(s *stats.Sample) string {
 type pSet struct {
 	xs1, xs2, pos, ws []float64
 	samp, wsamp       stats.Sample
+	swsamp            stats.Sample // weighted, ascending, flagged Sorted, with zero weights in between
+	linRev            scale.Linear // decreasing domain
 	sortMe            stats.Sample // receiver of the in-place operations (sequential phase only)
 	rev               []int
 	g, g2             graph.IntGraph
@@ -187,6 +189,18 @@ func mkSet(rng *rand.Rand) *pSet {
 	p.samp = stats.Sample{Xs: tied(n, 6, -2)}
 	p.wsamp = stats.Sample{Xs: tied(n, 6, -2), Weights: append([]float64{}, p.ws...)}
 	p.sortMe = stats.Sample{Xs: tied(n, 6, -2), Weights: append([]float64{}, p.ws...)}
+	{
+		xs := tied(n, 6, -2)
+		sort.Float64s(xs)
+		w := tied(n, 1, 0)
+		for i := range w {
+			w[i] = float64(rng.Intn(4)) // zeros included
+		}
+		w[len(w)-1] = 2
+		w[0] = 0
+		p.swsamp = stats.Sample{Xs: xs, Weights: w, Sorted: true}
+	}
+	p.linRev = scale.Linear{Min: 100, Max: -3.25}
 	p.rev = rng.Perm(5)
 	nn := 4 + rng.Intn(8)
 	p.g = make(graph.IntGraph, nn)
@@ -235,7 +249,8 @@ func mkSet(rng *rand.Rand) *pSet {
 		"xs1": func() string { return digestAny(p.xs1) }, "xs2": func() string { return digestAny(p.xs2) },
 		"pos": func() string { return digestAny(p.pos) }, "ws": func() string { return digestAny(p.ws) },
 		"samp": func() string { return digSample(&p.samp) }, "wsamp": func() string { return digSample(&p.wsamp) },
-		"sortMe": func() string { return digSample(&p.sortMe) }, "rev": func() string { return digestAny(p.rev) },
+		"sortMe": func() string { return digSample(&p.sortMe) }, "swsamp": func() string { return digSample(&p.swsamp) },
+		"linRev": func() string { return fmt.Sprintf("%+v", p.linRev) }, "rev": func() string { return digestAny(p.rev) },
 		"g": func() string { return digestAny(graph.Graph(p.g)) }, "g2": func() string { return digestAny(graph.Graph(p.g2)) },
 		"stream": func() string { return fmt.Sprintf("%+v", p.stream) }, "stream2": func() string { return fmt.Sprintf("%+v", p.stream2) },
 		"lhist": func() string { u, b, o := p.lhist.Counts(); return digestAny([]any{u, b, o}) },
@@ -292,6 +307,12 @@ func purityEntries() []pEntry {
 		{"WSample.Quantile", []string{"wsamp"}, "", false, func(p *pSet) any { return p.wsamp.Quantile(0.6) }},
 		{"WSample.IQR", []string{"wsamp"}, "", false, func(p *pSet) any { return p.wsamp.IQR() }},
 		{"WSample.Copy", []string{"wsamp"}, "", false, func(p *pSet) any { return digSample(p.wsamp.Copy()) }},
+		{"SWSample.Quantile", []string{"swsamp"}, "", false, func(p *pSet) any { return []any{p.swsamp.Quantile(0.4), p.swsamp.Quantile(0.9)} }},
+		{"SWSample.IQR", []string{"swsamp"}, "", false, func(p *pSet) any { return p.swsamp.IQR() }},
+		{"SWSample.Mean", []string{"swsamp"}, "", false, func(p *pSet) any { return []any{p.swsamp.Mean(), p.swsamp.Sum(), p.swsamp.Weight()} }},
+		{"SWSample.Bounds", []string{"swsamp"}, "", false, func(p *pSet) any { return pairs(p.swsamp.Bounds()) }},
+		{"LinearRev.Ticks", []string{"linRev"}, "", false, func(p *pSet) any { a, b := p.linRev.Ticks(scale.TickOptions{Max: 7}); return []any{a, b} }},
+		{"LinearRev.Map", []string{"linRev"}, "", false, func(p *pSet) any { return []any{p.linRev.Map(25), p.linRev.Unmap(0.25)} }},
 		{"stats.MannWhitneyUTest/less", []string{"xs1", "xs2"}, "", false, func(p *pSet) any {
 			r, e := stats.MannWhitneyUTest(p.xs1, p.xs2, stats.LocationLess)
 			return []any{r, e}
